@@ -136,6 +136,19 @@ class _Worker(object):
         return ("ok", rep)
 
 
+def cap_by_mech(viols, per=6, total=80):
+    """Bounds what a worker sends back WITHOUT letting one mechanism (e.g. hundreds of occurrences of a listed
+    finding) crowd out the others: at most `per` entries per mechanism."""
+    seen = {}
+    out = []
+    for v in viols:
+        m = v.get("mech") if isinstance(v, dict) else v[0]
+        seen[m] = seen.get(m, 0) + 1
+        if seen[m] <= per and len(out) < total:
+            out.append(v)
+    return out
+
+
 MONITOR_ERRORS = []  # faults of the monitors themselves, reported by workers: the run is inconclusive
 
 
